@@ -6,7 +6,8 @@ Import ListNotations.
 
 Definition text := list N.
 
-Inductive iev := ChildOut (d : text) | ChildEof | Typed (d : text).
+Inductive iev := ChildOut (d : text) | ChildEof | Typed (d : text)
+               | ChildExit.      (* the child terminates: the next isalive() says so *)
 
 (** data[:data.find(esc)] : the part before the FIRST escape character, if there is one *)
 Fixpoint before_esc (esc : N) (d : text) : text * bool :=
@@ -22,12 +23,14 @@ Section Interact.
   Variable esc : option N.
   Variable fin fout : text -> text.           (* input_filter / output_filter (identity when not given) *)
 
-  Fixpoint copy (evs : list iev) (o : iout) : iout :=
+  (** the copy loop while the child stays alive (no ChildExit event takes effect): the reference for [copy] below *)
+  Fixpoint copy_live (evs : list iev) (o : iout) : iout :=
     match evs with
-    | [] => o                                   (* the child is no longer alive: the loop ends *)
+    | [] => o                                   (* nothing more happens: the script is over *)
+    | ChildExit :: r => copy_live r o
     | ChildOut d :: r =>
         let d' := fout d in
-        copy r {| to_stdout := to_stdout o ++ d'; to_child := to_child o; log_read := log_read o ++ [d']; log_send := log_send o;
+        copy_live r {| to_stdout := to_stdout o ++ d'; to_child := to_child o; log_read := log_read o ++ [d']; log_send := log_send o;
                   escaped := false; child_eof := false; mode_restored := false |}
     | ChildEof :: _ => {| to_stdout := to_stdout o; to_child := to_child o; log_read := log_read o; log_send := log_send o;
                           escaped := false; child_eof := true; mode_restored := false |}
@@ -39,16 +42,48 @@ Section Interact.
             if found then {| to_stdout := to_stdout o; to_child := to_child o ++ p; log_read := log_read o;
                              log_send := log_send o ++ (match p with [] => [] | _ => [p] end);
                              escaped := true; child_eof := false; mode_restored := false |}
-            else copy r {| to_stdout := to_stdout o; to_child := to_child o ++ d'; log_read := log_read o; log_send := log_send o ++ [d'];
+            else copy_live r {| to_stdout := to_stdout o; to_child := to_child o ++ d'; log_read := log_read o; log_send := log_send o ++ [d'];
                            escaped := false; child_eof := false; mode_restored := false |}
-        | None => copy r {| to_stdout := to_stdout o; to_child := to_child o ++ d'; log_read := log_read o; log_send := log_send o ++ [d'];
+        | None => copy_live r {| to_stdout := to_stdout o; to_child := to_child o ++ d'; log_read := log_read o; log_send := log_send o ++ [d'];
                             escaped := false; child_eof := false; mode_restored := false |}
         end
     end.
 
+
+  (** the part of a typed chunk that is to be forwarded, and whether the escape character was in it *)
+  Definition cut (d' : text) : text * bool :=
+    match esc with Some e => before_esc e d' | None => (d', false) end.
+
+  (** __interact_copy (pty_spawn.py:837-880) with the liveness checks: isalive() is consulted at the top of every iteration
+      and before every write towards the child; once the child is gone only its descriptor is watched, without waiting:
+      what it had written is still copied, keystrokes are left alone, and the loop ends when nothing is readable *)
+  Fixpoint copy (alive : bool) (evs : list iev) (o : iout) : iout :=
+    match evs with
+    | [] => o
+    | ChildExit :: r => copy false r o
+    | ChildOut d :: r =>
+        let d' := fout d in
+        copy alive r {| to_stdout := to_stdout o ++ d'; to_child := to_child o; log_read := log_read o ++ [d']; log_send := log_send o;
+                        escaped := false; child_eof := false; mode_restored := false |}
+    | ChildEof :: _ => {| to_stdout := to_stdout o; to_child := to_child o; log_read := log_read o; log_send := log_send o;
+                          escaped := false; child_eof := true; mode_restored := false |}
+    | Typed d :: r =>
+        if negb alive then o                       (* stdin is not watched any more: nothing is readable, the loop ends *)
+        else
+          let '(p, found) := cut (fin d) in
+          let lg := if found then (match p with [] => [] | _ => [p] end) else [p] in
+          let mk := fun (w : text) => {| to_stdout := to_stdout o; to_child := to_child o ++ w; log_read := log_read o; log_send := log_send o ++ lg;
+                                         escaped := found; child_eof := false; mode_restored := false |} in
+          (* the write loop `while data and self.isalive()`: a child that has just gone gets nothing *)
+          match p, r with
+          | _ :: _, ChildExit :: r' => if found then mk [] else copy false r' (mk [])
+          | _, _ => if found then mk p else copy true r (mk p)
+          end
+    end.
+
   (** interact(): pending output first; tcsetattr in the finally clause on every exit path *)
   Definition interact (pending : text) (evs : list iev) : iout :=
-    let o := copy evs {| to_stdout := pending; to_child := []; log_read := []; log_send := []; escaped := false; child_eof := false;
+    let o := copy true evs {| to_stdout := pending; to_child := []; log_read := []; log_send := []; escaped := false; child_eof := false;
                           mode_restored := false |} in
     {| to_stdout := to_stdout o; to_child := to_child o; log_read := log_read o; log_send := log_send o;
        escaped := escaped o; child_eof := child_eof o; mode_restored := true |}.
